@@ -349,6 +349,19 @@ func runC20(c *Ctx) {
 						if s, isC := constString(w.Call.Args[0]); isC && s == "" && guardedBy(r, pr, factNil(vIs(u), true)) {
 							okk = true
 						}
+						// … or a merge that is empty only on the edge taken when the SpecURL did not parse
+						if phi, isPhi := w.Call.Args[0].(*ssa.Phi); isPhi {
+							okk = true
+							for i, e := range phi.Edges {
+								if s, isC := constString(e); isC && s == "" && edgeGuarded(phi.Block().Preds[i], phi.Block(), pr, factNil(vIs(u), true)) {
+									continue
+								}
+								if okE, _ := allOrigins(e, oCall(1, "path.Split")); okE {
+									continue
+								}
+								okk = false
+							}
+						}
 					}
 					return okk
 				}))
